@@ -298,11 +298,24 @@ fn case_from(kv: &Kv) -> StreamCase {
             0 => p[4] ^= 0xff,
             1 => p[0] |= 0x80,
             2 => p[7] = p[7].wrapping_add(1),
-            _ => p[0] |= 0x40,
+            3 => p[0] |= 0x40,
+            // a valid header announcing (almost) the largest possible message: never completed by this stream
+            4 => {
+                p[2] = 0xff;
+                p[3] = 0xff;
+            }
+            _ => {
+                p[2] = 0xff;
+                p[3] = 0xfc;
+            }
         }
     }
     let maxp = packets.iter().map(|p| p.len()).max().unwrap_or(20) as i64;
-    let buf = (maxp + kv_i64(kv, "slack", 0)).max(0) as usize;
+    let mut buf = (maxp + kv_i64(kv, "slack", 0)).max(0) as usize;
+    if bad >= 0 && kv_u64(kv, "badkind", 0) >= 4 && kv_i64(kv, "slack", 0) > 0 {
+        // room for the announced (never completed) 64 KiB message
+        buf = 70_000;
+    }
     StreamCase { packets, buf_size: buf, fill: kv_u64(kv, "fill", 0) as u8 }
 }
 
@@ -371,7 +384,7 @@ pub fn run_stream(src: &mut Source, _spec: &PropSpec, _opts: &RunOpts) -> RunRes
             slack,
             *rng.pick(&[0u64, 0xff, 0x5a]),
             bad,
-            rng.below(4)
+            rng.below(6)
         ))
     });
     let kv = parse_kv(line.as_deref().unwrap_or("lens=0"));
